@@ -924,7 +924,50 @@ fn case_history_names(case: &str) -> Option<Fail> {
     }
 }
 
+/// a universal and an existential quantification over the same variable, back to back on the same diagram in ONE environment
+/// (both orders), must each give what a fresh environment gives
+fn case_history_quantpair(case: &str) -> Option<Fail> {
+    tick();
+    let ids = vec![1usize, 3, 5, 7];
+    let r = quiet(|| {
+        for tt in [0b1110_0100u32, 0b0110_1001, 0b1000_0111, 0b0011_0101, 0b1101_0010, 0b0001_1011] {
+            let bits: Vec<bool> = (0..8).map(|k| (tt >> k) & 1 == 1).collect();
+            for vi in 0..3usize {
+                for order in 0..2 {
+                    let env = E::new();
+                    let f = build(&env, &ids[..3], &bits);
+                    let v = ids[vi];
+                    let (first, second) = if order == 0 { (env.all(vec![v], f.clone()), env.exists(vec![v], f.clone())) } else { (env.exists(vec![v], f.clone()), env.all(vec![v], f.clone())) };
+                    let (a_, e_) = if order == 0 { (first, second) } else { (second, first) };
+                    let fr1 = E::new();
+                    let wa = fr1.all(vec![v], build(&fr1, &ids[..3], &bits));
+                    let fr2 = E::new();
+                    let we = fr2.exists(vec![v], build(&fr2, &ids[..3], &bits));
+                    if *a_ != *wa || *e_ != *we {
+                        return Some(format!("tt={tt:#010b} var={v} order={order}: all -> {} (fresh {}), exists -> {} (fresh {})", show(&a_), show(&wa), show(&e_), show(&we)));
+                    }
+                    // and once more in the same environment
+                    let e2 = env.exists(vec![v], f.clone());
+                    let a2 = env.all(vec![v], f.clone());
+                    if *e2 != *we || *a2 != *wa {
+                        return Some(format!("tt={tt:#010b} var={v} order={order}: repeated quantification differs from a fresh environment"));
+                    }
+                }
+            }
+        }
+        None
+    });
+    match r {
+        Err(p) => Some(Fail { case: case.into(), expected: "no panic".into(), actual: p }),
+        Ok(Some(e)) => Some(Fail { case: case.into(), expected: "the same results as in fresh environments".into(), actual: e }),
+        Ok(None) => None,
+    }
+}
+
 fn search_history(budget: usize, seed: u64) -> Option<Fail> {
+    if let Some(f) = case_history_quantpair("quantpair") {
+        return Some(f);
+    }
     if let Some(f) = case_history("1,3,5|1|0|1") {
         return Some(f);
     }
@@ -1848,8 +1891,8 @@ fn case_lex(case: &str) -> Option<Fail> {
     }
 }
 
-const LEXALPHA: [&str; 40] = ["a", "b1", "1", "23", " ", "\n", "\t", "(", ")", "[", "]", ",", "#", "-", "!", "&", "|", "^", "*", "+", "=", "<", ">", "=>", "<=", "<=>", ">=",
-    "\"", "{", "}", "{r}", "'", "_", "and", "exists", "mu", "@", ";", "é", "99999999999999999999999"];
+const LEXALPHA: [&str; 44] = ["a", "b1", "1", "23", " ", "\n", "\t", "(", ")", "[", "]", ",", "#", "-", "!", "&", "|", "^", "*", "+", "=", "<", ">", "=>", "<=", "<=>", ">=",
+    "\"", "{", "}", "{r}", "'", "_", "and", "exists", "mu", "@", ";", "é", "99999999999999999999999", "\0", "९९९९९९९९", "1٣٣٣٣٣٣٣٣٣٣٣", "０１２３４５６７"];
 
 fn search_lex(budget: usize, seed: u64) -> Option<Fail> {
     for c in ["", "\"only a comment\"", "@ \"note\"", "\"a\"\"b\"", "[a, b] = 1and c", "2x & a", "a<=>b", "a<=b", "a=>b", "a>=1", "[a]>=1", "{x} & {y'}", "a \"c\" b", "a\"unterminated", "٣", "[a] = ٣",
@@ -2055,7 +2098,7 @@ fn main() {
             "formula" => case_formula(c),
             "parse" => case_parse(c),
             "lex" => case_lex(c),
-            "history" => if c == "big" { case_history_big(c) } else if c == "define" { case_history_define(c) } else if c == "names" { case_history_names(c) } else { case_history(c) },
+            "history" => if c == "big" { case_history_big(c) } else if c == "define" { case_history_define(c) } else if c == "names" { case_history_names(c) } else if c == "quantpair" { case_history_quantpair(c) } else { case_history(c) },
             "index" => case_index(c),
             _ => std::process::exit(2),
         }
